@@ -48,6 +48,7 @@ def linear_dynamics(f):
 
             def propagate(self, initial_time, final_time, initial_state, station_keeping=None, scheduled_events=None, error_flags=None):
                 self.calls += 1
+                self.intervals = [*getattr(self, "intervals", []), (float(initial_time), float(final_time))][-8:]
                 self.last_in = np.array(initial_state, dtype=float, copy=True)
                 out = self.F @ initial_state  # works for (N,) and (N, S)
                 self.last_out = out.copy()
